@@ -51,4 +51,4 @@ pub mod utils;
 // proof harnesses for private items live outside the repository.
 #[cfg(kani)]
 #[path = "/verif/kani/incrate/mod.rs"]
-mod verif_kani;
+pub(crate) mod verif_kani;
